@@ -64,21 +64,29 @@ class Mem2RegPromotor(FunctionPass):
         Each node in the df(x) requires a phi function,
         where x is a block where the variable is defined.
         """
+        # Blocks are hashed by address, so visit sets of blocks in the order
+        # of the blocks in the function, such that the names of the phi
+        # nodes are reproducible.
+        order = {b: i for i, b in enumerate(cfg_info.function.blocks)}
+
+        def in_order(blocks):
+            return sorted(blocks, key=order.__getitem__)
+
         defining_blocks = {st.block for st in stores}
 
         # Create worklist:
-        block_backlog = set(defining_blocks)
+        block_backlog = in_order(defining_blocks)
 
         has_phi = set()
 
         phis = []
         idx = 0
         while block_backlog:
-            defining_block = block_backlog.pop()
-            for frontier_block in cfg_info.df[defining_block]:
+            defining_block = block_backlog.pop(0)
+            for frontier_block in in_order(cfg_info.df[defining_block]):
                 if frontier_block not in has_phi:
                     has_phi.add(frontier_block)
-                    block_backlog.add(frontier_block)
+                    block_backlog.append(frontier_block)
                     phi_name = f"phi_{name}_{idx}"
                     idx += 1
                     phi = ir.Phi(phi_name, phi_ty)
